@@ -256,6 +256,11 @@ fn child_call(mut op: ChildOp) -> (i64, i32) {
     if terminal {
         finish_child();
     }
+    // a forked child that neither execs nor exits (say, retrying a failing exec for ever) must
+    // not take the worker with it
+    if child_ctx().calls.len() >= 5000 {
+        child_escaped("runaway: 5000 system calls between fork and exec without exec or _exit");
+    }
     (ret, errno)
 }
 
